@@ -8,6 +8,7 @@ import c04_config as K
 import common as C
 import hist
 import progs as P
+import values as V
 
 COQ_FILES = ("L3_Sig/Sig.v", "L4_Eval/DdsEval.v", "L4_Eval/RunEval.v", "L4_Eval/EvalProofs.v", "Properties/C04.v")
 EXTRACTED = ("ConstHash", "ConstSig")
@@ -49,7 +50,7 @@ def plan(seed, n_steps, store_kind):
             if not cands:
                 break
             m, v = rng.choice(cands)
-            new = rng.choice([x for x in P.VAR_VALUES if x != cur["modules"][m]["vars"][v]])
+            new = rng.choice([x for x in P.VAR_VALUES if V.canon(x) != V.canon(cur["modules"][m]["vars"][v])])
             events.append(("act", {"a": "setvar", "mod": m, "name": v, "value": new}))
             cur = copy.deepcopy(cur)
             cur["modules"][m]["vars"][v] = new
